@@ -412,10 +412,39 @@ def _whitespace(repo, rep):
     t = L.text(f.node)
     site = f.qualname
     wh = L.where(f)
-    rep.check("self._whitespace = '\\n' + ' ' * len(self._last.rsplit('\\n', "
-              "1)[-1])" in t and "if self._last is not None:" in t, "R08.4",
-              site, "separator = line break + the indentation of the line "
-              "the element starts on", construct="capture", where=wh)
+    INDENT = "self._last.rsplit('\\n',1)[-1]"
+    caps = [n for n in ast.walk(f.node) if isinstance(n, ast.Assign)
+            and src(n.targets[0]) == "self._whitespace"
+            and INDENT in src(L.inline_locals(f.node, n.value)).replace(
+                " ", "")]
+    rep.check(len(caps) == 1 and "if self._last is not None:" in t, "R08.4",
+              site, "the separator is computed from the text after the last "
+              "line break before the element", construct="capture", where=wh)
+    verbatim = False
+    detail = ""
+    if caps:
+        v = L.inline_locals(f.node, caps[0].value)
+        detail = src(v)[:140]
+        if isinstance(v, ast.BinOp) and isinstance(v.op, ast.Add) and \
+                isinstance(v.left, ast.Constant) and v.left.value == "\n":
+            r = v.right
+            if isinstance(r, ast.IfExp):
+                tt = src(r.test).replace(" ", "")
+                space_test = (INDENT + ".strip()" in tt or
+                              INDENT + ".isspace()" in tt)
+                yes, no = r.body, r.orelse
+                if tt.startswith("not") and ".isspace()" not in tt:
+                    pass        # 'not INDENT.strip()' : body is the blank case
+                elif ".strip()" in tt and not tt.startswith("not"):
+                    yes, no = r.orelse, r.body
+                verbatim = space_test and src(yes).replace(
+                    " ", "") == INDENT
+            elif src(r).replace(" ", "") == INDENT:
+                verbatim = True
+    rep.check(verbatim, "R08.4", site, "when the element starts on its own "
+              "line the separator is a line break plus that line's "
+              "indentation *as written* (tabs stay tabs)",
+              construct="indent-as-written", where=wh, detail=detail)
     rep.check("whitespace = self._whitespace" in t, "R08.4", site,
               "the value is taken before the children change it",
               construct="element-local", where=wh)
